@@ -9,6 +9,7 @@ call      = {"types": [names]|null, "tr": null|[start|null, end|null, absolute(b
              "align": 0|1|2, "atypes": null|[names], "idx": bool, "bytes": bool, "nan": bool}
 output    = [{"hist": [[outcome per call] per history], "fresh": {callkey: outcome}, "nomax": {callkey: outcome},
               "avail": [source ids], "need": [need_t0, need_system_t0],
+              "nn": [ordinals kept by the reader's remove_nans selection],
               "tt": {json(tr): [ordinals selected by the reader's FileIndex[TimeRange]] | {"exc":..}}}]
 
 Only public observables are canonicalised: the dict / MessageData returned by read().  Every logged message carries its
@@ -89,6 +90,10 @@ def row_ids(tname, arrays):
     key = {'POSE': 'aggregate_protection_level_m', 'POSE_AUX': 'position_std_body_m', 'GNSS_INFO': 'gdop',
            'EVENT_NOTIFICATION': 'event_flags'}.get(tname)
     if key is None or key not in arrays:
+        # a type of which the generated logs hold no message: its rows can only be messages synthesised by time
+        # alignment, one per p1_time element (some classes add constant, non-time arrays)
+        if key is None:
+            return ['D:%s:%r' % (tname, float(t)) for t in arrays['p1_time']] if 'p1_time' in arrays else []
         return None
     a = arrays[key]
     if a.ndim == 2:
@@ -189,6 +194,10 @@ def main():
                'avail': sorted(int(x) for x in first.get_available_source_ids()),
                'need': [bool(getattr(first, '_need_t0', False)), bool(getattr(first, '_need_system_t0', False))]}
         res['tt'] = {}
+        try:   # the reader's removal of entries without P1 time (filter_out_invalid_p1_times on an unbounded range)
+            res['nn'] = [int(x) for x in first.get_index().get_time_range(hint='remove_nans').message_index]
+        except Exception as e:
+            res['nn'] = {'exc': type(e).__name__, 'msg': str(e)[:200]}
         for h in job['histories']:
             for c in h:
                 k = json.dumps(c.get('tr'))
